@@ -559,8 +559,51 @@ def run_unsignedtext(prog, ctx=None):
             lab = blk.label
             if lab and lab.get("k") == "case" and lab.get("lo") == 45:
                 looks = True
+        # the character that is looked at is the one the parser starts with: a pointer tested as `*p == '-'` is not moved
+        # between that test and the call (a test in front of the skipping of blanks looks at the wrong character)
+        tests = []
+        for bid, blk in f.blocks.items():
+            conds = []
+            if blk.term and blk.term.get("cond") is not None:
+                conds.append((len(blk.el), blk.term["cond"]))
+            for nn_i, el in enumerate(blk.el):
+                conds.append((nn_i, el))
+            for pos, root in conds:
+                for nn in walk(root):
+                    if nn.get("k") == "bin" and nn.get("op") in ("==", "!=") and (cval(nn["a"]) == 45 or cval(nn["b"]) == 45):
+                        side = nn["b"] if cval(nn["a"]) == 45 else nn["a"]
+                        d = strip(side, all_casts=True)
+                        if d.get("k") == "un" and d.get("op") == "*":
+                            pv = strip(d["e"], all_casts=True)
+                            if pv.get("k") == "ref" and "id" in pv["d"]:
+                                tests.append((bid, pos, pv["d"]["id"], pv["d"]["n"], nn))
+        moved = None
+        for tb, tpos, vid, vn, tn in tests:
+            mods = []
+            for b2, i2, e2 in f.elements():
+                for m in walk_own(e2):
+                    tgt = None
+                    if m.get("k") == "un" and m.get("op") in ("++", "--"):
+                        tgt = m["e"]
+                    elif m.get("k") == "bin" and m.get("op") in ("+=", "-=", "="):
+                        tgt = m["a"]
+                    if tgt is not None:
+                        t2 = strip(tgt, lvalue_to_rvalue=False)
+                        if t2.get("k") == "ref" and t2["d"].get("id") == vid:
+                            mods.append((b2.id, i2, m))
+            for cb, ci, ce in [(b3.id, i3, e3) for b3, i3, e3 in f.elements() if e3 in calls]:
+                for mb, mi, m in mods:
+                    after_test = (mb == tb and mi > tpos and not (cb == tb and ci < mi)) or (mb != tb and mb in f.reachable_from(tb))
+                    before_call = (mb == cb and mi < ci) or (mb != cb and cb in f.reachable_from(mb))
+                    if after_test and before_call and not (mb == tb and mi <= tpos):
+                        moved = (vn, m, tn)
         for c in calls:
             n += 1
+            if looks and moved is not None:
+                res.ob("%s:%s" % (f.qn, norm(show(c, f))[:50]), False, f, moved[1].get("l", f.line) or f.line,
+                       "%s: `%s` looks for the minus sign, but `%s` moves %s between that test and %s(): the character tested is not the one the parser starts with (blanks in front of a '-' get past the test)" % (
+                           f.qn, norm(show(moved[2], f)), norm(show(moved[1], f)), moved[0], callee_name(c)))
+                continue
             res.ob("%s:%s" % (f.qn, norm(show(c, f))[:50]), looks, f, c.get("l", f.line),
                    "" if looks else "%s: %s() parses the text as unsigned: it accepts a leading '-' and returns the negated value modulo 2^N without an error, "
                                     "and nothing in this function looks for a '-': negative text is delivered as a large positive number" % (f.qn, callee_name(c)))
